@@ -47,41 +47,51 @@ Theorem index_query_selects_witnessed : forall re_match D t cs gin fp, cs <> [] 
 Proof. exact fp_sel_correct. Qed.
 Print Assumptions index_query_selects_witnessed.
 
-(* The full statement -- for every consistent database the rows answered to the statement Select sends
-   are the in-window samples of exactly the series whose labels satisfy every matcher (absent label = "")
-   -- is false: a matcher that accepts the empty string never selects a series lacking the label. *)
-Theorem prom_select_exact_refuted :
-  ~ (forall (re_match re_full : string -> string -> bool), (forall v p, re_match v (anchor p) = re_full v p) ->
-     forall cluster dbname h ms db, use_raw_data h = true -> h_step h = 0 ->
-       db_ok (from_day (h_start h * 1000000)) (d_gin db) (d_series db) -> ms <> [] -> (List.length ms <= 63)%nat ->
-       prom_query_rows re_match cluster dbname h ms db = Some (expected_rows re_full h ms db)).
-Proof.
-  intros H. specialize (H re_none re_none (fun _ _ => eq_refl) false "qryn"%string w_hints w_ms w_db eq_refl eq_refl w_db_ok).
-  rewrite w_rows_none, w_expected_none in H. assert (H' := H ltac:(discriminate) ltac:(cbn; auto with arith)). discriminate H'.
-Qed.
-Print Assumptions prom_select_exact_refuted.
+(* The same for the statement fingerprintsQuery builds since fix e2b3950 (absent labels): the matchers that reject the
+   empty string go through the label index (pos_clauses), each matcher that accepts it is planned as
+   `fingerprint IN (SELECT .. <inverse matcher> ..) == 0` (neg_clauses): the interpreter on the planner's own tree
+   computes the list function fp_sel_abs. *)
+Theorem fingerprints_query_sql_meaning : forall re_match re_full c ms gin,
+  eval_fp_sel re_match (fingerprints_query re_full c ms) gin =
+  fp_sel_abs re_match (from_day (c_from_ns c)) (sel_type c) (pos_clauses re_full ms) (neg_clauses re_full ms) gin.
+Proof. exact eval_fp_sel_fingerprints_query. Qed.
+Print Assumptions fingerprints_query_sql_meaning.
 
-(* Partial: when every matcher rejects the empty string or no stored series lacks its label, and there
-   are 1..63 matchers, the rows answered are exactly the Prometheus meaning: samples in (from, to] of the
-   metric series satisfying every matcher (regexes anchored), ordered by (fingerprint, time). *)
-Theorem prom_select_exact_partial_rows : forall (re_match re_full : string -> string -> bool),
+(* fp_sel_abs selects exactly the fingerprints for which every positive clause is witnessed by an index row and no
+   index row (inside the date / type bounds) satisfies an exclusion clause *)
+Theorem index_query_with_exclusions : forall re_match D t pos neg gin fp, pos <> [] -> (List.length pos <= 63)%nat ->
+  List.In fp (fp_sel_abs re_match D t pos neg gin) <->
+  series_matches re_match D t pos gin fp /\
+  ~ (exists n r, List.In n neg /\ List.In r gin /\ g_fp r = fp /\ D <= g_date r /\ (g_type r = t \/ g_type r = 0)
+                 /\ eval_clause re_match n r = true).
+Proof. exact fp_sel_abs_correct. Qed.
+Print Assumptions index_query_with_exclusions.
+
+(* THE SELECTION STATEMENT, in full (it was refuted before fix e2b3950: a matcher accepting the empty
+   string never selected a series lacking the label; and the window was (Start, End] in nanoseconds).
+   For every consistent database (db_ok: the label index describes the series table, C04's property), every matcher
+   list of at most 63 matchers one of which rejects the empty string (Prometheus refuses any other selector), on the
+   raw path with Step = 0: the rows answered to the statement Select sends are exactly the samples whose millisecond
+   lies in [Start, End] of exactly the metric series whose labels satisfy every matcher in the Prometheus sense
+   (absent label = "", regexes anchored), ordered by (fingerprint, time). *)
+Theorem prom_select_exact_rows : forall (re_match re_full : string -> string -> bool),
   (forall v p, re_match v (anchor p) = re_full v p) ->
   forall cluster dbname h ms db, use_raw_data h = true -> h_step h = 0 ->
-    db_ok (from_day (h_start h * 1000000)) (d_gin db) (d_series db) -> ms <> [] -> (List.length ms <= 63)%nat ->
-    (forall m, List.In m ms -> matcher_guard re_full (d_series db) m) ->
-    prom_query_rows re_match cluster dbname h ms db = Some (expected_rows re_full h ms db).
+    db_ok (from_day (h_start h * 1000000)) (d_gin db) (d_series db) ->
+    selective re_full ms = true -> (List.length ms <= 63)%nat ->
+    prom_query_rows re_match re_full cluster dbname h ms db = Some (expected_rows re_full h ms db).
 Proof. intros re_match re_full Hl. intros. now apply (prom_rows_exact re_match re_full Hl). Qed.
-Print Assumptions prom_select_exact_partial_rows.
+Print Assumptions prom_select_exact_rows.
 
-(* ... and Select's row loop hands the engine each selected fingerprint once, with exactly its in-window
+(* ... and Select's row loop hands the engine each selected fingerprint once, with exactly its in-range
    samples, ascending in time (the `ascending` hypothesis of seek_contract). *)
-Theorem prom_select_exact_partial : forall (re_match re_full : string -> string -> bool),
+Theorem prom_select_exact : forall (re_match re_full : string -> string -> bool),
   (forall v p, re_match v (anchor p) = re_full v p) ->
   forall cluster dbname h ms db, use_raw_data h = true -> h_step h = 0 ->
-    db_ok (from_day (h_start h * 1000000)) (d_gin db) (d_series db) -> ms <> [] -> (List.length ms <= 63)%nat ->
-    (forall m, List.In m ms -> matcher_guard re_full (d_series db) m) ->
-    exists rows, prom_query_rows re_match cluster dbname h ms db = Some rows /\
-      let ss := select_loop (snd (querier_transpile cluster dbname h ms)) rows in
+    db_ok (from_day (h_start h * 1000000)) (d_gin db) (d_series db) ->
+    selective re_full ms = true -> (List.length ms <= 63)%nat ->
+    exists rows, prom_query_rows re_match re_full cluster dbname h ms db = Some rows /\
+      let ss := select_loop (snd (querier_transpile re_full cluster dbname h ms)) rows in
       NoDup (map ps_fp ss) /\
       (forall fp, List.In fp (map ps_fp ss) <->
                   List.In fp (expected_fps re_full (from_day (h_start h * 1000000)) ms (d_series db)) /\
@@ -93,24 +103,23 @@ Theorem prom_select_exact_partial : forall (re_match re_full : string -> string 
             exists sm, List.In sm (d_samples db) /\ window_ok h sm = true /\ sm_fp sm = ps_fp s /\
                        x = (Z.quot (sm_ts_ns sm) 1000000, sm_value sm))).
 Proof. intros re_match re_full Hl. intros. now apply (prom_select_series_exact re_match re_full Hl). Qed.
-Print Assumptions prom_select_exact_partial.
+Print Assumptions prom_select_exact.
 
-(* End to end (both statements answered by the reference interpreter, then labelsGetter, ReshuffleSeries and
-   the final sort): Select returns each matching series that has a sample in the window exactly once, under
-   its own label set, with exactly its in-window samples in ascending time order. Extra hypotheses: a series
-   with a sample in the window is announced between the date bounds of the labels request (C04's property),
-   and distinct stored series print distinct label strings (ReshuffleSeries' key). *)
-Theorem prom_select_exact_partial_series : forall (re_match re_full : string -> string -> bool),
+(* End to end (both statements answered by the reference interpreter, then labelsGetter, ReshuffleSeries and the
+   final sort): Select returns each matching series that has a sample in the range exactly once, under its own
+   label set, with exactly its in-range samples in ascending time order. Extra hypotheses: a series with a sample
+   in the range is announced between the date bounds of the labels request (C04's property), and distinct stored
+   series print distinct label strings (ReshuffleSeries' key). *)
+Theorem prom_select_exact_series : forall (re_match re_full : string -> string -> bool),
   (forall v p, re_match v (anchor p) = re_full v p) ->
   forall cluster dbname h ms db, use_raw_data h = true -> h_step h = 0 ->
-    db_ok (day_from h) (d_gin db) (d_series db) -> ms <> [] -> (List.length ms <= 63)%nat ->
-    (forall m, List.In m ms -> matcher_guard re_full (d_series db) m) ->
+    db_ok (day_from h) (d_gin db) (d_series db) -> selective re_full ms = true -> (List.length ms <= 63)%nat ->
     (forall sm, List.In sm (d_samples db) -> window_ok h sm = true ->
        exists s, List.In s (d_series db) /\ t_fp s = sm_fp sm /\ day_from h <= t_date s /\ t_date s <= day_to h) ->
     (forall s1 s2, List.In s1 (d_series db) -> List.In s2 (d_series db) ->
        label_str (sort_labels (sort_labels (t_labels s1))) = label_str (sort_labels (sort_labels (t_labels s2))) -> t_fp s1 = t_fp s2) ->
-    exists rows out, prom_query_rows re_match cluster dbname h ms db = Some rows /\
-      prom_select re_match cluster dbname h ms db = Some out /\
+    exists rows out, prom_query_rows re_match re_full cluster dbname h ms db = Some rows /\
+      prom_select re_match re_full cluster dbname h ms db = Some out /\
       NoDup (map o_fp out) /\
       (forall fp, List.In fp (map o_fp out) <->
                   List.In fp (expected_fps re_full (day_from h) ms (d_series db)) /\
@@ -121,7 +130,7 @@ Theorem prom_select_exact_partial_series : forall (re_match re_full : string -> 
          o_samples o = rows_of (o_fp o) rows /\
          StronglySorted Z.le (map fst (o_samples o))).
 Proof. intros re_match re_full Hl. intros. now apply (prom_select_exact_series re_match re_full Hl). Qed.
-Print Assumptions prom_select_exact_partial_series.
+Print Assumptions prom_select_exact_series.
 
 (* Several Selects on ONE querier (a PromQL query with several selectors / offsets; model PromSelect.select_step
    with the labelsGetter as a stateful object and a querier state that could retain one): the series a Select
